@@ -383,6 +383,84 @@ class Raw(Call):
         return [(z3.BoolVal(True), self.classes)], w._copy(pre)
 
 
+def fresh_instance_equivalence(w, s, probe):
+    """Run probe(w, instance) -> list of outcomes on the instance that just served a call and on a fresh instance over
+    a copy of the same store; the results of the API must depend on the store only, not on the instance's past."""
+    import shutil
+    if w.mode == "model":
+        F = w.F
+        F2 = symfs.FS(F.b.clone_concrete(), blksize=w.blksize)
+        F2.env = dict(F.env)
+        used = probe(w, s)
+        w.shim.fs = F2
+        try:
+            fresh = probe(w, w.instance())
+        finally:
+            w.shim.fs = F
+    else:
+        root2 = w.scratch + "/copy"
+        shutil.copytree(w.scratch + "/s", root2 + "/s")
+        used = probe(w, s)
+        s2 = w.module().FileHashStore(w.props(root2 + "/s"))
+        fresh = probe(w, s2)
+        shutil.rmtree(root2, ignore_errors=True)
+    if used != fresh:
+        d = [(i, a, b) for i, (a, b) in enumerate(zip(used, fresh)) if a != b][:2]
+        return [("results-depend-on-earlier-calls-on-the-instance", d)]
+    return []
+
+
+def _summ(v):
+    if v is None or isinstance(v, (bytes, str, int)):
+        return v
+    if hasattr(v, "cid") and hasattr(v, "obj_size"):
+        return ("ObjectMetadata", v.cid, v.obj_size, tuple(sorted(v.hex_digests.items())))
+    if hasattr(v, "read"):
+        try:
+            return v.read()
+        finally:
+            v.close()
+    return type(v).__name__
+
+
+def general_probe(w, s):
+    """a fixed follow-up history touching every method"""
+    out = []
+    P = w.pids
+
+    def rec(fn):
+        try:
+            out.append(("ok", _summ(fn())))
+        except symfs.Crash:
+            raise
+        except Exception as e:   # noqa
+            out.append(("exc", type(e).__name__))
+    for p in P:
+        rec(lambda: s.retrieve_object(p))
+    rec(lambda: s.retrieve_metadata(P[0]))
+    rec(lambda: s.get_hex_digest(P[0], "md5"))
+    rec(lambda: s.delete_object(P[0]))
+    rec(lambda: s.retrieve_object(P[0]))
+    rec(lambda: s.retrieve_metadata(P[0]))
+    rec(lambda: s.store_object(P[0], w.src(0)))
+    rec(lambda: s.retrieve_object(P[0]))
+    rec(lambda: s.get_hex_digest(P[0], "md5"))
+    rec(lambda: s.store_metadata(P[0], w.docsrc(1)) and None)
+    rec(lambda: s.retrieve_metadata(P[0]))
+    rec(lambda: s.delete_metadata(P[0]))
+    rec(lambda: s.retrieve_metadata(P[0]))
+    rec(lambda: s.tag_object(P[-1], w.cids[0]))
+    rec(lambda: s.retrieve_object(P[-1]))
+    return out
+
+
+def probed(call):
+    """the same call, followed (after the post-state was abstracted) by the fresh-instance equivalence probe"""
+    call.finally_ = lambda w, s, res: fresh_instance_equivalence(w, s, general_probe)
+    call.label += " + probe"
+    return call
+
+
 # ---------------------------------------------------------------------------------------------- the step itself
 import re
 CONTAINED = re.compile(r"^/s/((objects|metadata|refs/(pids|cids))(/[0-9a-f]+)*(/[0-9a-f]+_delete)?|(objects|metadata|refs)/tmp(/tmp[0-9]+)?)$")
